@@ -60,12 +60,18 @@ list `ty` among their descendants -/
 def Schema.allowedParentTypes (s : Schema) (ty : EntityType) : List EntityType :=
   (s.ets.filter (fun p => p.2.descendants.contains ty)).map (·.1)
 
-/-- last `::`-separated component of a type name -/
+/-- characters after the last `::` (structural, so that closed instances evaluate in the kernel) -/
+def basenameChars : List Char → List Char → List Char
+  | [], acc => acc.reverse
+  | ':' :: ':' :: rest, _ => basenameChars rest []
+  | c :: rest, acc => basenameChars rest (c :: acc)
+
+/-- last `::`-separated component of a type name (`Name::basename`) -/
 def basename (ty : EntityType) : String :=
-  (ty.splitOn "::").getLast?.getD ty
+  String.ofList (basenameChars ty.toList [])
 
 /-- `EntityType::is_action`: the basename is `Action`, whatever the namespace -/
-def isActionType (ty : EntityType) : Bool := basename ty == "Action"
+def isActionType (ty : EntityType) : Bool := basenameChars ty.toList [] == ['A', 'c', 't', 'i', 'o', 'n']
 
 /-- `EntityTypeDescription::required_attrs` -/
 def EntityTypeEntry.requiredAttrs (et : EntityTypeEntry) : List String :=
